@@ -166,6 +166,7 @@ def check_dt(acc, pendulum, z, f, kw, durations=True, fold=1):
             if (None if g is None else _obs(g)) != (None if w is None else _obs(w)):
                 acc.mismatch(name, "vs-add-components", dict(case, interval_base=list(p0)), None if g is None else _obs(g),
                              None if w is None else _obs(w))
+    _check_more_operands(acc, pendulum, x, z, f, kw, case)
     # reflected operand order, and Durations with the same components obtained by arithmetic instead of from the
     # constructor (their raw constructor arguments differ from d's; their components do not)
     r = _try(lambda: d + x)
@@ -183,6 +184,52 @@ def check_dt(acc, pendulum, z, f, kw, durations=True, fold=1):
             got = None if v is None else _obs(v)
             if got != vals["subtract-components"]:
                 acc.mismatch("minus-Duration", f"derived-{vname}/{k}", case, got, vals["subtract-components"])
+
+
+def _check_more_operands(acc, pendulum, x, z, f, kw, case):
+    """AbsoluteDuration operands (what Time.diff() / abs-like helpers return) and receivers whose tzinfo is not a
+    pendulum timezone: the same calendar arithmetic, the timezone kept."""
+    import zoneinfo
+    from pendulum.duration import AbsoluteDuration
+    comp = components(kw)
+    ac = {k: abs(v) for k, v in comp.items()}
+    ad = _try(lambda: AbsoluteDuration(**kw))
+    if ad is not None and variable(ac):
+        for name, sign, fn in (("plus-AbsoluteDuration", 1, lambda: x + ad), ("minus-AbsoluteDuration", -1, lambda: x - ad),
+                               ("AbsoluteDuration-plus-dt", 1, lambda: ad + x)):
+            exp = expected(z, f, ac, sign)
+            if exp is None:
+                continue
+            try:
+                r = _obs(fn())
+            except Exception as e:  # noqa: BLE001
+                r = f"raises {type(e).__name__}"
+            acc.c["evaluations"] += 1
+            acc.c["transitions"] += 1
+            if r != exp:
+                acc.mismatch(name, "value", case, r, exp)
+    if z is None:
+        return
+    if isinstance(z, int):
+        fx = pendulum.DateTime(*f, tzinfo=dt_.timezone(dt_.timedelta(seconds=z)))
+        fname = "stdlib-timezone"
+    else:
+        fx = pendulum.DateTime(*f, tzinfo=zoneinfo.ZoneInfo(z), fold=x.fold)
+        fname = "zoneinfo"
+    if _obs(fx) != _obs(x):
+        return
+    for name, sign, fn in (("add", 1, lambda: fx.add(**kw)), ("subtract", -1, lambda: fx.subtract(**kw))):
+        exp = expected(z, f, kw, sign)
+        if exp is None:
+            continue
+        try:
+            r = _obs(fn())
+        except Exception as e:  # noqa: BLE001
+            r = f"raises {type(e).__name__}"
+        acc.c["evaluations"] += 1
+        acc.c["transitions"] += 1
+        if r != exp:
+            acc.mismatch(name, "foreign-tzinfo-receiver/" + fname, dict(case, receiver=fname), r, exp)
 
 
 def _no_ym(d):
